@@ -3,6 +3,7 @@ package main
 import (
 	"fmt"
 	"runtime"
+	"time"
 
 	"github.com/sahandsafizadeh/qeep/component/metrics"
 	"qmc/core"
@@ -27,7 +28,7 @@ configuration came first" differs.
 
 func soakSteps(c *core.Ctx) int {
 	if c.Thorough() {
-		return 6000
+		return 4000
 	}
 	return 640
 }
@@ -50,6 +51,9 @@ func soakOpCases() []OpCase {
 func soak(c *core.Ctx, id string, n int, step func(k, i int) core.Verdict) {
 	for order := 0; order < 2; order++ {
 		order := order
+		saved := c.CaseTimeout
+		c.CaseTimeout = 30 * time.Minute // one case = one long history
+		defer func() { c.CaseTimeout = saved }()
 		c.Case(fmt.Sprintf("soak/%s/order%d", id, order), true, func() core.Verdict {
 			rt.ObjCache = map[string]any{}
 			defer func() { rt.ObjCache = nil }()
